@@ -334,8 +334,11 @@ func (g G) FaultLike() string {
 
 // Valid returns a statement that is usually accepted: corpus or generated.
 func (g G) Valid() string {
-	if g.n(3, "src") == 1 {
+	switch g.n(4, "src") {
+	case 1:
 		return corpus[g.n(len(corpus), "corp")]
+	case 3:
+		return g.Feature()
 	}
 	return g.Stmt(1 + g.n(2, "d"))
 }
